@@ -400,6 +400,12 @@ func genGateway(seed uint64, tier string) *RunConfig {
 			rules = append(rules, ruleSpec{Host: hosts[g.pick(len(hosts))], Paths: []pathSpec{{Path: "/ing", Svc: "s1", Port: "80"}}})
 		}
 		ann := map[string]string{"kubernetes.io/ingress.class": ingressClassName, annPrefix + "balance-algorithm": g.of("leastconn", "roundrobin", "first")}
+		if g.chance(1, 4) {
+			// a TCP service of the Ingress kind on a port TCPRoutes use: the route, which a full sync configures
+			// first, keeps the port whatever the history
+			ann[annPrefix+"tcp-service-port"] = g.of("7100", "7101", "7102")
+			rules = []ruleSpec{{Host: "", Paths: []pathSpec{{Path: "/", Svc: "s1", Port: "80"}}}}
+		}
 		return g.gen(mkIngress(ns, "companion", 1, ann, nil, rules, nil, nil))
 	}
 	withIngress := g.chance(1, 2)
@@ -838,6 +844,9 @@ func (r *Run) checkGateway() {
 		}
 	}
 	for port, got := range gotTCP {
+		if _, ok := ex.tcp[port]; !ok && !strings.Contains(got, "__") {
+			continue // the TCP service of the companion Ingress (its backend is not a route's)
+		}
 		if _, ok := ex.tcp[port]; !ok {
 			r.violate(&Violation{Property: "C10", Oracle: "tcp", Class: "tcp-service-of-non-admitted-route",
 				Witness: fmt.Sprintf("TCP port %d is configured (backend %s) but no admitted TCPRoute targets it", port, got)})
